@@ -272,3 +272,98 @@ ASSUMPTIONS = [
 ]
 NOT_DECIDED = []
 TRUSTED = ['ghost stub WsgiInput (server stream) in contracts/C07_streams.py']
+
+
+# ---------------------------------------------------------------------------
+# lazy wrapping: the stream the application gets is ONE BoundedStream over the server's input, built with the
+# declared Content-Length (0 when absent or invalid), and the same object on every access
+
+REQ = 'falcon.request:Request'
+
+
+@harness(PROP, REQ + '.bounded_stream', name='wsgi_bounded_stream_wiring', inline=[REQ + '._get_wrapped_wsgi_input'])
+def wsgi_wiring(v):
+    if v.concrete:
+        return
+    src = v.bytes('src')
+    srv = WsgiInput(v, src, 0)
+    cl_kind = v.choose(3, 'content-length')  # 0: absent (None), 1: a number, 2: invalid header (accessor raises HTTPInvalidHeader)
+    n = v.int('declared', 0)
+    built = []
+
+    def mk_bounded(I, stream, length):
+        built.append((stream, length))
+        return ('bounded-stream', len(built))
+
+    import falcon.request as fr
+
+    v.registry.add_model(fr.BoundedStream, mk_bounded)
+    InvalidHeader = v.real('falcon.errors:HTTPInvalidHeader')
+
+    def content_length_stub(I, self):
+        # contract of Request.content_length (C09): None when absent, the non-negative number, or a 400-class error
+        if cl_kind == 0:
+            return None
+        if cl_kind == 2:
+            I.ctx.raise_py(InvalidHeader, 'bad', 'Content-Length')
+        return n
+
+    v.registry.stubs[REQ + '.content_length'] = content_length_stub
+    req = v.obj(REQ, env={'wsgi.input': srv}, _bounded_stream=None)
+    out1 = v.call(req)
+    out2 = v.call(req)
+    v.check('no-exception', out1.exc is None and out2.exc is None)
+    if out1.exc is not None or out2.exc is not None:
+        return
+    v.check('wrapped-exactly-once-and-cached', len(built) == 1 and out1.value is out2.value)
+    if len(built) == 1:
+        v.check('wraps-the-servers-input-stream', built[0][0] is srv)
+        v.check('budget-is-the-declared-content-length-or-zero', built[0][1] == (n if cl_kind == 1 else 0))
+    v.cover('wired')
+
+
+AREQ = 'falcon.asgi.request:Request'
+
+
+@harness(PROP, AREQ + '.stream', name='asgi_stream_wiring')
+def asgi_wiring(v):
+    if v.concrete:
+        return
+    cl_kind = v.choose(2, 'content-length')
+    n = v.int('declared', 0)
+    built = []
+
+    def mk_bounded(I, receive, first_event=None, content_length=None):
+        built.append((receive, first_event, content_length))
+        return ('bounded-stream', len(built))
+
+    import falcon.asgi.request as far
+
+    v.registry.add_model(far.BoundedStream, mk_bounded)
+    v.registry.stubs[AREQ + '.content_length'] = lambda I, self: (n if cl_kind == 1 else None)
+    receive, first = object(), {'type': 'http.request'}
+    ws = bool(v.choose(2, 'websocket?'))
+    req = v.obj(AREQ, is_websocket=ws, _stream=None, _receive=receive, _first_event=first)
+    out1 = v.call(req)
+    if ws:
+        v.check('websocket-handshake-has-no-body-stream', out1.exc is not None and out1.exc.isa(v.real('falcon.errors:UnsupportedError')) and not built)
+        return
+    out2 = v.call(req)
+    v.check('no-exception', out1.exc is None and out2.exc is None)
+    if out1.exc is not None or out2.exc is not None:
+        return
+    v.check('wrapped-exactly-once-and-cached', len(built) == 1 and out1.value is out2.value)
+    if len(built) == 1:
+        v.check('built-over-the-servers-receive-the-first-event-and-the-declared-length',
+                built[0][0] is receive and built[0][1] is first and (built[0][2] == n if cl_kind == 1 else built[0][2] is None))
+    v.cover('wired')
+
+
+KILLS = [
+    ('falcon/stream.py', "        self._bytes_remaining -= len(result)\n", "        self._bytes_remaining -= size\n", 'BoundedStream.read#invariant-budget-deducts-returned'),
+    ('falcon/stream.py', "        if size is None or size < 0 or size > self._bytes_remaining:\n", "        if size is None or size < 0:\n", 'server-stream-never-asked-beyond-content-length'),
+    ('falcon/request.py', "            content_length = self.content_length or 0\n", "            content_length = self.content_length or -1\n", 'Request.bounded_stream#budget-is-the-declared-content-length-or-zero'),
+    ('falcon/request.py', "        if self._bounded_stream is None:\n            self._bounded_stream = self._get_wrapped_wsgi_input()\n\n        return self._bounded_stream",
+     "        return self._get_wrapped_wsgi_input()", 'Request.bounded_stream#wrapped-exactly-once-and-cached'),
+    ('falcon/asgi/request.py', "                content_length=self.content_length,\n", "                content_length=None,\n", 'asgi.request:Request.stream#built-over'),
+]
